@@ -102,6 +102,23 @@ def run_c12(sc, q, rnd):
                 key_fn=lambda c: (c["case"]["sii8"], c["image_len"], tuple((r["word"], r["len"], r["via"], r["result"], r.get("n"))
                                                                              for r in c.get("reads", [])[:8])),
                 sample_fn=lambda c: True)
+    # register-level protocol of every read that succeeded inside the image (SiiDevice)
+    cfg = lib.cfg_text(spec="McSpec", constants=dict(MaxBusy=2, MaxWord=9, MaxLen=20), invariants=["AccessesCover"])
+    sc.mc("siidevice", "SiiDeviceMC", cfg, workers=2)
+    regs = os.path.join(sc.wd, "siidevice.proj.ndjson")
+    nreg = 0
+    with open(trace) as fi, open(regs, "w") as fo:
+        for line in fi:
+            c = json.loads(line)
+            for j, r in enumerate(c.get("reads", [])):
+                if r.get("result") != "ok" or "sii" not in r or len(r["sii"]) >= 400 or nreg >= (500 if q else 20000):
+                    continue
+                fo.write(json.dumps(dict(case=dict(id=f"{c['case']['id']}#{j}"), word=r["word"], len=r["len"], n=r.get("n", 0),
+                                         chunk=8 if c["case"]["sii8"] else 4,
+                                         sii=[dict(reg=e["reg"], rw=e["rw"], len=e["len"], value=e["value"] + [0, 0, 0]) for e in r["sii"]])) + "\n")
+                nreg += 1
+    sc.validate("siidevice", regs, "SiiDeviceTrace", dict(MaxBusy=1000), constraints=("Track", "Judge"),
+                key_fn=lambda c: (c["word"] % 4, c["len"], c["chunk"], c["n"], len(c["sii"])), sample_fn=lambda c: False)
     run_c12_image(sc, q, rnd)
     return sc.finish(
         "one case = one device whose EEPROM is read through the public API for a list of (start word, length) ranges; "
